@@ -210,6 +210,8 @@ func (c clientT) key() []byte {
 	return c.mac
 }
 
+var inPlaceReported bool
+
 type savedFile struct {
 	text     []byte
 	c        cfgT
@@ -337,7 +339,31 @@ func histories(r *lib.Run, rng *lib.Rand) (files []savedFile) {
 				if step == 0 && special == "captured-outside-net2" {
 					want = ip("192.168.0.12")
 				}
+				// atomicity probe: a hard link to the lease file taken before the ACK keeps the old, complete
+				// content iff saveConfig replaces the file (temp + rename); an in-place rewrite (truncate +
+				// write) shows through the link, i.e. every byte prefix is a crash state of the real file
+				lnk := fname + ".lnk"
+				os.Remove(lnk)
+				before, _ := os.ReadFile(fname)
+				linked := os.Link(fname, lnk) == nil
 				got, ok := sv.acquire(cl, want)
+				if ok && linked {
+					through, _ := os.ReadFile(lnk)
+					now, _ := os.ReadFile(fname)
+					switch {
+					case bytes.Equal(now, before):
+						r.Stat("hist.save.unchanged", 1)
+					case bytes.Equal(through, before):
+						r.Stat("hist.save.replaced-atomically", 1)
+					default:
+						r.Stat("hist.save.rewritten-in-place", 1)
+						if !inPlaceReported {
+							inPlaceReported = true
+							r.Viol("save-rewrites-in-place", "saveConfig truncated and rewrote the lease file in place (seen through a hard link taken before the ACK): a crash during the write leaves a byte prefix of the file", "")
+						}
+					}
+				}
+				os.Remove(lnk)
 				if ok {
 					acked[lib.Hex(cl.key())] = bindingT{lib.Hex(cl.key()), lib.Hex(cl.mac), addrTok(got)}
 					classes["acquire"] = true
